@@ -44,33 +44,13 @@ Inductive case :=
 
 Definition flag (b : bool) (code : N) : list N := if b then [] else [code].
 
-Definition with_evdropped (x : export) (n : nat) : export :=
-  X (x_name x) (x_status x) (x_attrs x) (x_dropped x) (x_events x) n (x_links x) (x_lkdropped x).
-Definition with_lkdropped (x : export) (n : nat) : export :=
-  X (x_name x) (x_status x) (x_attrs x) (x_dropped x) (x_events x) (x_evdropped x) (x_links x) n.
-
-(** Known findings F-C04-2 / F-C04-3 (narrow): the event (link) count limit is
-    0, events (links) were offered, and the exported span reports 0 dropped
-    events (links) -- everything else must still be exactly what the
-    specification says. *)
-Definition known_ev (lim : limits) (sp exported : export) : bool :=
-  (lim_events lim =? 0)%Z && negb (Nat.eqb (x_evdropped sp) 0) && Nat.eqb (x_evdropped exported) 0.
-Definition known_lk (lim : limits) (sp exported : export) : bool :=
-  (lim_links lim =? 0)%Z && negb (Nat.eqb (x_lkdropped sp) 0) && Nat.eqb (x_lkdropped exported) 0.
-
 Definition check_case (c : case) : list N :=
   match c with
   | CSpan lim name0 ops exported readback =>
       let st := run_model lim name0 ops in
       let sp := run_spec lim name0 ops in
-      let k1 := known_ev lim sp exported in
-      let k2 := known_lk lim sp exported in
-      let e1 := if k1 then with_evdropped exported (x_evdropped sp) else exported in
-      let e2 := if k2 then with_lkdropped e1 (x_lkdropped sp) else e1 in
       flag (export_eqb (snapshot st) exported && export_eqb (live st) readback) V_MISMATCH ++
-      (if export_eqb sp e2 && export_eqb sp readback
-       then (if k1 then [V_KNOWN 1] else []) ++ (if k2 then [V_KNOWN 2] else [])
-       else [V_SPECFAIL]) ++
+      flag (export_eqb sp exported && export_eqb sp readback) V_SPECFAIL ++
       flag (export_eqb sp (live st)) V_MODELSPEC
   | CTrunc limit s out =>
       flag (bytes_eqb (truncate limit s) out) V_MISMATCH ++
